@@ -378,6 +378,41 @@ def run(tier, seed, replay=None):
         Af = A.full().reshape(int(np.prod(N)), -1); res = float((Af @ x.full().reshape(-1) - b.full().reshape(-1)).norm() / b.full().norm())
         if not (res <= CONST * eps):
             V.fail("amen_solve: residual exceeds %g*eps [%s]" % (CONST, key), dict(desc, rel_residual=res, ranks=[int(r) for r in x.R]))
+    # a right-hand side that is exactly zero (b * 0, zeros): ||A x - b|| <= C eps ||b|| = 0 leaves x = 0 only - with the direct and with both iterative local solvers
+    for j in range(6 if tier == "quick" else 30):
+        A_z, b_z, N_z, kind_z = gen_system(rng, torch, torchtt, N=[rng.choice([3, 4, 5]) for _ in range(rng.choice([2, 3]))])
+        bz = [b_z * 0, torchtt.zeros(N_z, dtype=torch.float64)][j % 2]
+        kwz = [dict(), dict(max_full=0), dict(max_full=0, local_solver=2)][j % 3]
+        if j >= 3: kwz = dict(kwz, preconditioner=["c", "r", None][j % 3])
+        desc = {"zero_rhs": True, "N": N_z, "family": kind_z, "options": {k_: str(v_) for k_, v_ in kwz.items()}}
+        try:
+            x_z = torchtt.solvers.amen_solve(A_z, bz, eps=1e-8, nswp=20, verbose=False, use_cpp=False, **kwz)
+            if [int(v) for v in x_z.N] != N_z or not (float(x_z.full().abs().max()) <= 1e-300): V.fail("amen_solve with a zero right-hand side does not return the zero tensor", dict(desc, max_abs=float(x_z.full().abs().max())))
+        except Exception as ex:
+            V.fail("amen_solve with a zero right-hand side raises %s" % type(ex).__name__, dict(desc, exc=str(ex)[:200]))
+        dist["zero right-hand side (exactly)"] = dist.get("zero right-hand side (exactly)", 0) + 1
+    # a strictly diagonally dominant operator whose diagonal changes sign (+-1 diagonal plus a small coupling, condition number 1.2), iterative local solves:
+    # without and with the 'r' preconditioner the contract holds; with 'c' (block Jacobi built from the diagonals of the interfaces, nearly singular blocks here) it does
+    # not within the default iteration budget - a listed known finding (known_findings.json, DESIGN 9b)
+    N_i = [4, 5, 6]; g_i = torch.Generator().manual_seed(1)
+    P_i = torchtt.TT([torch.rand((r0_, n_, n_, r1_), generator=g_i, dtype=torch.float64) for r0_, n_, r1_ in [(1, 4, 2), (2, 5, 3), (3, 6, 1)]])
+    P_i = P_i * (0.2 / float(torch.linalg.matrix_norm(P_i.full().reshape(120, 120), 2)))
+    sg_i = [torch.tensor([1., -1, 1, -1]), torch.tensor([1., 1, -1, -1, 1]), torch.tensor([-1., 1, 1, -1, 1, -1])]
+    A_i = torchtt.TT([torch.diag(s_.to(torch.float64)).reshape(1, n_, n_, 1) for s_, n_ in zip(sg_i, N_i)]) + P_i
+    b_i = torchtt.TT([torch.randn((r0_, n_, r1_), generator=g_i, dtype=torch.float64) for r0_, n_, r1_ in [(1, 4, 2), (2, 5, 2), (2, 6, 1)]])
+    for prec_i, ls_i in ((None, 1), ("r", 1), ("c", 1), ("c", 2), (None, 2), ("c", 0)):
+        kw_i = dict(max_full=0, local_solver=ls_i) if ls_i else dict(max_full=500)
+        desc = {"sign_indefinite_diagonally_dominant": True, "N": N_i, "eps": 1e-8, "preconditioner": prec_i, "local_solver": ["direct", "gmres", "bicgstab"][ls_i]}
+        try:
+            torch.manual_seed(0)
+            x_i = torchtt.solvers.amen_solve(A_i, b_i, eps=1e-8, preconditioner=prec_i, verbose=False, use_cpp=False, **kw_i)
+            r_i = float((A_i.full().reshape(120, 120) @ x_i.full().reshape(-1) - b_i.full().reshape(-1)).norm() / b_i.full().norm())
+            if not (r_i <= CONST * 1e-8):
+                key_i = ("sign-indefinite diagonal, preconditioner 'c', iterative local solver (%s): residual far above eps" % ["direct", "gmres", "bicgstab"][ls_i]) if (prec_i == "c" and ls_i) else "amen_solve: residual exceeds %g*eps [sign-indefinite diagonally dominant]" % CONST
+                V.fail(key_i, dict(desc, rel_residual=r_i))
+        except Exception as ex:
+            V.fail("amen_solve raises %s [sign-indefinite diagonally dominant]" % type(ex).__name__, dict(desc, exc=str(ex)[:200]))
+        dist["sign-indefinite diagonally dominant"] = dist.get("sign-indefinite diagonally dominant", 0) + 1
     # the public keyword use_single_precision (local iterative solves in float32, residual test in double): the same contract, at an eps the
     # float32 local residuals can still serve (1e-5) and on systems whose solution needs more than one enrichment sweep (rank above 1 + kickrank)
     for j, N_sp in enumerate(([8, 9], [5, 5, 5, 5]) if tier == "quick" else ([8, 9], [5, 5, 5, 5], [12, 12], [8, 9], [6, 7, 8], [5, 5, 5, 5])):
